@@ -147,10 +147,10 @@ Proof.
     + rewrite Hclk. eapply cstep_inv; eauto.
     + eapply wf_step; eauto.
     + exact (flight_clause_nontick g t EEnd _ _ fo eq_refl Hs Hfl).
-  - destruct (mute_ids x lbl S t C (flush_ids g t)) as [C' [sup|]] eqn:Hm; [|discriminate].
+  - destruct (mute_ids x lbl S t C (passed other (flush_ids g t))) as [C' [sup|]] eqn:Hm; [|discriminate].
     destruct (Group.step cfg g t (ETick tau (sup ++ other))) as [[g' o']|] eqn:Hs; [|discriminate].
     inversion H; subst; clear H. pose proof (step_time _ _ _ _ _ _ Hs) as [Hle Hclk].
-    destruct (mute_ids_correct (flush_ids g t) _ _ _ t HI Hle) as (C'' & Hm' & HI'). rewrite Hm' in Hm.
+    destruct (mute_ids_correct (passed other (flush_ids g t)) _ _ _ t HI Hle) as (C'' & Hm' & HI'). rewrite Hm' in Hm.
     injection Hm as <- <-.
     destruct (tick_flight _ _ _ _ _ _ _ Hs) as (g0 & fl & Hg0 & Hf0 & Hg' & Hst & Hall & Hpost & _ & _).
     split; [|split]; cbn [p_sc p_g p_flush].
@@ -162,6 +162,8 @@ Proof.
       apply negb_true_iff, bool_decide_eq_false in Hns.
       destruct (silenced S t (f_id f)) eqn:Hsil; [|reflexivity]. exfalso. apply Hns.
       apply elem_of_app. left. apply elem_of_list_filter. split; [rewrite Hsil; exact I|].
+      apply elem_of_list_filter. split.
+      { apply Is_true_true, negb_true_iff, bool_decide_eq_false. intros Ho. apply Hns. apply elem_of_app. right. exact Ho. }
       unfold flush_ids. rewrite Hg0, <- Hall. apply elem_of_list_In, in_map. exact Hin.
   - destruct (is_tick e) eqn:Hnt; [discriminate|].
     destruct (Group.step cfg g t e) as [[g' o']|] eqn:Hs; [|discriminate]. inversion H; subst; clear H.
@@ -218,7 +220,7 @@ Proof.
   destruct (prun_origin h _ _ _ _ (PInv_init t0) Hok Hrun Hin) as (h1 & ta & e & h2 & P1 & o1 & P2 & o & -> & Hr1 & HI1 & Hs & Hy).
   destruct HI1 as (_ & Hwf & Hfl). destruct e as [so|tau other|e]; cbn [pstep] in Hs.
   - destruct (Group.step cfg (p_g P1) ta EEnd) as [[g' o']|]; [|discriminate]. inversion Hs; subst. destruct Hy.
-  - destruct (mute_ids x lbl (fst (p_sc P1)) ta (snd (p_sc P1)) (flush_ids (p_g P1) ta)) as [C' [sup|]]; [|discriminate].
+  - destruct (mute_ids x lbl (fst (p_sc P1)) ta (snd (p_sc P1)) (passed other (flush_ids (p_g P1) ta))) as [C' [sup|]]; [|discriminate].
     destruct (Group.step cfg (p_g P1) ta (ETick tau (sup ++ other))) as [[g' o']|] eqn:Hg; [|discriminate].
     inversion Hs; subst. destruct (tick_flight _ _ _ _ _ _ _ Hg) as (g0 & fl & _ & _ & _ & _ & _ & _ & _ & ->).
     destruct Hy as [Hy|[]]. discriminate.
@@ -281,10 +283,10 @@ Theorem tick_post_exact P t tau other P' o :
               In f (fl_all fl') /\ silenced (fst (p_sc P)) t (f_id f) = false /\ ~ In (f_id f) other.
 Proof.
   destruct P as [[S C] g fo]. intros (HI & Hwf & Hfl) H. cbn [pstep p_sc p_g p_flush fst snd] in *.
-  destruct (mute_ids x lbl S t C (flush_ids g t)) as [C' [sup|]] eqn:Hm; [|discriminate].
+  destruct (mute_ids x lbl S t C (passed other (flush_ids g t))) as [C' [sup|]] eqn:Hm; [|discriminate].
   destruct (Group.step cfg g t (ETick tau (sup ++ other))) as [[g' o']|] eqn:Hs; [|discriminate].
   inversion H; subst; clear H. pose proof (step_time _ _ _ _ _ _ Hs) as [Hle Hclk].
-  destruct (mute_ids_correct (flush_ids g t) _ _ _ t HI Hle) as (C'' & Hm' & HI'). rewrite Hm' in Hm.
+  destruct (mute_ids_correct (passed other (flush_ids g t)) _ _ _ t HI Hle) as (C'' & Hm' & HI'). rewrite Hm' in Hm.
   injection Hm as <- <-.
   destruct (tick_flight _ _ _ _ _ _ _ Hs) as (g0 & fl & Hg0 & Hf0 & Hg' & Hst & Hall & Hpost & _ & Ho).
   eexists. exists fl. cbn [p_g p_sc p_flush fst]. split; [exact Hg'|]. split; [reflexivity|]. split; [exact Hst|].
@@ -293,9 +295,12 @@ Proof.
   assert (Hid : In f (fl_all fl) -> f_id f ∈ flush_ids g t).
   { intros Hin. unfold flush_ids. rewrite Hg0, <- Hall. apply elem_of_list_In, in_map. exact Hin. }
   split.
-  - intros [Hin Hn]. split; [exact Hin|]. split.
-    + destruct (silenced S t (f_id f)) eqn:E; [|reflexivity]. exfalso. apply Hn. left. split; [exact I|auto].
-    + intros Ho'. apply Hn. right. apply elem_of_list_In. exact Ho'.
+  - intros [Hin Hn]. assert (Hno : ~ In (f_id f) other).
+    { intros Ho'. apply Hn. right. apply elem_of_list_In. exact Ho'. }
+    split; [exact Hin|]. split; [|exact Hno].
+    destruct (silenced S t (f_id f)) eqn:E; [|reflexivity]. exfalso. apply Hn. left. split; [exact I|].
+    apply elem_of_list_filter. split; [|auto].
+    apply Is_true_true, negb_true_iff, bool_decide_eq_false. rewrite elem_of_list_In. exact Hno.
   - intros (Hin & Hsil & Hno). split; [exact Hin|]. intros [[Hc _]|Hc]; [|apply elem_of_list_In in Hc; contradiction].
     rewrite Hsil in Hc. exact Hc.
 Qed.
@@ -305,12 +310,12 @@ Qed.
 Theorem tick_accepted P t tau other s' o :
   PInv P ->
   Group.step cfg (p_g P) t
-    (ETick tau (filter (fun a => silenced (fst (p_sc P)) t a) (flush_ids (p_g P) t) ++ other)) = Some (s', o) ->
+    (ETick tau (filter (fun a => silenced (fst (p_sc P)) t a) (passed other (flush_ids (p_g P) t)) ++ other)) = Some (s', o) ->
   exists P', pstep cfg c x lbl P t (PTick tau other) = Some (P', o) /\ p_g P' = s'.
 Proof.
   destruct P as [[S C] g fo]. intros (HI & _ & _) Hs. cbn [pstep p_sc p_g p_flush fst snd] in *.
   pose proof (step_time _ _ _ _ _ _ Hs) as [Hle _].
-  destruct (mute_ids_correct (flush_ids g t) _ _ _ t HI Hle) as (C' & -> & _). rewrite Hs. eexists. split; reflexivity.
+  destruct (mute_ids_correct (passed other (flush_ids g t)) _ _ _ t HI Hle) as (C' & -> & _). rewrite Hs. eexists. split; reflexivity.
 Qed.
 
 (* ---------- projections: the product is a run of each component ---------- *)
@@ -346,7 +351,7 @@ Fixpoint sview (P : pstate) (h : list (Z * pev)) : list (Z * cop) :=
       | Some (P1, _) =>
           match e with
           | PSil o => (t, o) :: sview P1 r
-          | PTick _ _ => (t, CStage (map lbl (flush_ids (p_g P) t))) :: sview P1 r
+          | PTick _ other => (t, CStage (map lbl (passed other (flush_ids (p_g P) t)))) :: sview P1 r
           | PGrp _ => sview P1 r
           end
       | None => []
@@ -364,11 +369,11 @@ Proof.
     + destruct (Group.step cfg (p_g P) t EEnd) as [[g' o']|]; [|discriminate]. inversion Hs; subst.
       cbn [crun]. cbn [p_sc] in IH. destruct (cstep c x (p_sc P) t so) as [SC1 y]. cbn [fst] in IH.
       destruct (crun c x SC1 (sview _ h)) as [SC2 ys]. exact IH.
-    + destruct (mute_ids x lbl (fst (p_sc P)) t (snd (p_sc P)) (flush_ids (p_g P) t)) as [C' [sup|]] eqn:Hm; [|discriminate].
+    + destruct (mute_ids x lbl (fst (p_sc P)) t (snd (p_sc P)) (passed other (flush_ids (p_g P) t))) as [C' [sup|]] eqn:Hm; [|discriminate].
       destruct (Group.step _ _ _ _) as [[g' o']|]; [|discriminate]. inversion Hs; subst.
-      cbn [crun cstep]. pose proof (mute_ids_stage (flush_ids (p_g P) t) (fst (p_sc P)) t (snd (p_sc P))) as [Hc _].
+      cbn [crun cstep]. pose proof (mute_ids_stage (passed other (flush_ids (p_g P) t)) (fst (p_sc P)) t (snd (p_sc P))) as [Hc _].
       rewrite Hm in Hc. cbn [fst] in Hc.
-      destruct (mute_stage x (fst (p_sc P)) t (snd (p_sc P)) (map lbl (flush_ids (p_g P) t))) as [C2 kept]. cbn [fst] in Hc.
+      destruct (mute_stage x (fst (p_sc P)) t (snd (p_sc P)) (map lbl (passed other (flush_ids (p_g P) t)))) as [C2 kept]. cbn [fst] in Hc.
       subst C2. cbn [p_sc] in IH. destruct (crun c x _ (sview _ h)) as [SC2 ys]. exact IH.
     + destruct (is_tick e); [discriminate|]. destruct (Group.step _ _ _ _) as [[g' o']|]; [|discriminate].
       inversion Hs; subst. exact IH.
